@@ -56,6 +56,9 @@ class Driver:
             return s.extended_request(name, value, controls=_ctl(ctl))
         if k == "unbind":
             return s.unbind()
+        if k in ("bind_response", "extended_response", "entry", "reference", "done"):
+            # applications compute ids in many ways: never rely on the identity of an int object
+            action = (action[0], int(str(action[1]))) + tuple(action[2:])
         if k == "bind_response":
             _, mid, sasl, code, matched, diag, ctl = action
             return s.bind_response(mid, sasl_creds=sasl, result_code=sl.LDAPResultCode(code), matched_dn=matched, diagnostics_message=diag, controls=_ctl(ctl))
